@@ -65,11 +65,28 @@ def compare(s, tab):
     return last
 
 
+HRICH = ['[CH5]', '[OH3]', '[NH4]', '[PH6]', '[SH7]', '[BH4]', '[CH4]', '[NH3]', '[OH2]', '[SH3]', '[PH4]', '[FH1]',
+         '[C]', '[=C]', '[Branch1]', '[Ring1]', '[Cl]']
+HTABLES = ['octet_rule', 'default', 'hypervalent', 'big', 'tight', 'qonly0', 'default', 'big', 'octet_rule']
+
+
 def _work(job):
     from harness.common import set_table
     tname, strings = job
-    tab = set_table(tname)
     bad, n, sig = [], 0, set()
+    if tname == '#sequence':
+        # one process, several tables in sequence: acceptance of explicit-H symbols must follow the table in force
+        for t in HTABLES:
+            tab = set_table(t)
+            for s in strings:
+                n += 1
+                r = compare(s, tab)
+                if r is not None and len(bad) < 3:
+                    bad.append({'clause': 'C02:derivation', 'input': {'selfies': s, 'table': t, 'sequence': HTABLES},
+                                'detail': r})
+                sig.add(hash((s, t)))
+        return n, len(sig), bad
+    tab = set_table(tname)
     for s in strings:
         n += 1
         r = compare(s, tab)
@@ -99,6 +116,11 @@ def domain(tier, seed):
         longs.append(''.join(rnd.choice(BIG) for _ in range(n)))
     for tname in ('default', 'hypervalent', 'big'):
         jobs.append((tname, longs))
+    from harness.common import strings_upto
+    hs = list(strings_upto(HRICH, 2)) + [rnd.choice(HRICH) + rnd.choice(HRICH) + rnd.choice(HRICH) for _ in range(300)]
+    for k in range(4):
+        rnd.shuffle(hs)
+        jobs.append(('#sequence', list(hs)))
     return jobs
 
 
@@ -106,7 +128,7 @@ def floor(ctx):
     from harness.par import pmap, chunks
     jobs = []
     for tname, ss in domain(ctx.tier, ctx.seed):
-        for ch in chunks(ss, 16 if len(ss) > 20000 else 2):
+        for ch in (chunks(ss, 16 if len(ss) > 20000 else 2) if tname != '#sequence' else [ss]):
             jobs.append((tname, ch))
     res = pmap(_work, jobs)
     ev = sum(r[0] for r in res)
@@ -152,6 +174,10 @@ def ground(ctx):
 def replay_input(d):
     from harness.common import set_table
     inp = d['input']
+    r = None
+    for t in (inp.get('sequence') or []):
+        tab = set_table(t)
+        r = r or compare(inp['selfies'], tab)
     tab = set_table(inp['table'])
-    r = compare(inp['selfies'], tab)
+    r = r or compare(inp['selfies'], tab)
     return r is None, r
